@@ -29,6 +29,7 @@ def _all_cases():
     cs += qartod_flatline.cases()
     cs += qartod_attenuated.cases()
     cs += qartod_clim.cases()
+    cs += qartod_clim.add_cases()
     cs += [utils_c.Gcd()]
     return cs
 
